@@ -94,7 +94,7 @@ def parseUnigramFile (s : Bytes) : Except Err (List (Bytes × Rat)) := do
 
 def bytesStr (b : Bytes) : String := (String.fromUTF8? (ByteArray.mk b.toArray)).getD "?"
 
-def load (maxOrder : Nat) (path : String) (lowerPaths : List String) : IO (Except String (Loaded × String)) := do
+def load (maxOrder : Nat) (path : String) (lowerPaths : List String) (quirk : Bool) : IO (Except String (Loaded × String)) := do
   let bytes ← IO.FS.readBinFile path
   match parse maxOrder (-100) bytes.toList with
   | .error e => return .error e.name
@@ -103,7 +103,8 @@ def load (maxOrder : Nat) (path : String) (lowerPaths : List String) : IO (Excep
     let (T, ks, blanks, proper) := memoTable a
     let vs := p.vocab.map bytesStr
     let idx : Std.HashMap String Nat := (vs.zipIdx).foldl (fun m (s, i) => if m.contains s then m else m.insert s i) {}
-    let Tq := withSignQuirk a T
+    -- probing structures: with `quirk=1` (trees before the repair of Read1Gram's sign bit) a +0.0 unigram extends left
+    let Tq := if quirk then withSignQuirk a T else T
     -- HashedSearch::ApplyBuild initialises `rest` for ids 0 … counts[0]-1 only, and before the hallucinated <unk> gets
     -- its probability: with <unk> absent from the file the last unigram (id = counts[0]) and <unk> keep rest = 0.0
     let lastUni := (a.entries.filter fun p => p.1.length == 1).length - 1
@@ -344,7 +345,8 @@ partial def mainLoop (maxOrder : Nat) (h : IO.FS.Stream) (L : Option Loaded) : I
   match words line with
   | "arpa" :: path :: opts =>
     let lower := (opts.filterMap fun kv => if kv.startsWith "lower=" then some ((kv.drop 6).toString.splitOn ",") else none).head?.getD []
-    match ← load maxOrder path lower with
+    let quirk := opts.contains "quirk=1"
+    match ← load maxOrder path lower quirk with
     | .ok (L', info) => IO.println info; mainLoop maxOrder h (some L')
     | .error e => IO.println ("arpa error " ++ e); mainLoop maxOrder h none
   | "d" :: start :: toks => withModel (fun L' => opDeriv L' start toks); mainLoop maxOrder h L
